@@ -70,12 +70,31 @@ def write_graph(d, nfiles, edges, ids=None, mapped=(), loc="abs",
                                    [f"http://vf.example/f{b}.rtdc"],
                                    verify=False, **kw)
                     continue
+                dangling = str(d / "does-not-exist" / paths[b].name)
+                decoy = d / f"decoy{b}.rtdc"
+                if loc.startswith("decoy") or "decoy" in loc:
+                    # same feature, other values, unrelated identifier
+                    if not decoy.exists():
+                        with RTDCWriter(decoy, mode="reset") as hd:
+                            hd.store_metadata(gen.complete_meta(
+                                N, fl=False, run_id="decoy-run"))
+                            hd.store_feature(FEATS[b], data_for(b) + 0.25)
                 if loc == "abs":
                     locs = [str(paths[b])]
                 elif loc == "rel":
                     locs = [paths[b].name]
+                elif loc == "dangling+abs":
+                    locs = [dangling, str(paths[b])]
+                elif loc == "dangling+rel":
+                    locs = [dangling, paths[b].name]
+                elif loc == "decoy+abs":
+                    locs = [str(decoy), str(paths[b])]
+                elif loc == "abs+decoy":
+                    locs = [str(paths[b]), str(decoy)]
+                elif loc == "decoy-only":
+                    locs = [str(decoy), decoy.name]
                 else:
-                    locs = [str(d / "does-not-exist" / paths[b].name)]
+                    locs = [dangling]
                 hw.store_basin(f"b{a}{b}", "file", "hdf5", locs,
                                verify=False, **kw)
     return paths
@@ -262,8 +281,8 @@ def _id_case(args):
             try:
                 paths = write_graph(d, nfiles, edges, ids=list(ids),
                                     mapped=mp, loc=loc)
-                usable = (lambda a, b: False) if loc == "dangling" else \
-                    (lambda a, b: True)
+                usable = (lambda a, b: False) if loc in (
+                    "dangling", "decoy-only") else (lambda a, b: True)
                 ref = reference(nfiles, edges, list(ids), mp, usable)
                 for i in range(nfiles):
                     out += check_open(paths[i], i, nfiles, ref, case, tags)
@@ -440,7 +459,8 @@ def run(ctx):
             continue
         for k in range(0, len(allids), 16):
             iitems.append((shape, allids[k:k + 16], True, "abs", scratch))
-    for loc in ("rel", "dangling"):
+    for loc in ("rel", "dangling", "dangling+abs", "dangling+rel",
+                "decoy+abs", "abs+decoy", "decoy-only"):
         for shape in ("edge", "chain", "cycle3"):
             iitems.append((shape, [("same",) * SHAPES[shape][0]], False, loc,
                            scratch))
@@ -462,8 +482,9 @@ def run(ctx):
            "rule": "one case = a set of files with basin definitions; all "
                    "2^4 / 2^9 directed graphs (self-loops included) on 2 / "
                    "3 files with matching identifiers; per shape all 4^n "
-                   "identifier assignments x unmapped/mapped; relative and "
-                   "dangling locations; every non-empty subset of edges carrying an "
+                   "identifier assignments x unmapped/mapped; relative, "
+                   "dangling and multiple locations (a dangling or a "
+                   "non-matching decoy file before / after the right one); every non-empty subset of edges carrying an "
                    "explicit one-feature list (enforced); remote definitions and opening "
                    "through RTDC_HTTP over the in-memory host; non-trivial "
                    "= at least one edge",
